@@ -1,1 +1,71 @@
-(* placeholder *)
+(* C06 — PlantUML diagrams parse to exactly their components, aliases and arrows.
+   Two layers (Model/Puml.v): lexical ([lex_line] : text line -> pline, [slice_tags], [parse_text])
+   and semantic ([parse_lines] : list pline -> components x relation).  The semantic theorems hold for
+   every list of lines; the lexical layer is tied to the real parser by correspondence on printed diagrams
+   and checked here on every documented line form by evaluation (theorem C06_lexical_forms - partial:
+   one instance per form, not universally quantified over names; see DESIGN 5/C06). *)
+From Coq Require Import List Bool NArith Permutation.
+From PTA Require Import Sx Names Search Label Puml LabelProofs DiagramProofs.
+Import ListNotations.
+
+(* exactly the dependor -> dependee relation drawn, each end resolved through the alias table,
+   whether a component is referred to by alias in one line and by name in another *)
+Theorem C06_relation : forall ls a b,
+  In (a, b) (snd (parse_lines ls)) <->
+  exists x y, In (PArrow x y) ls /\ a = lookup_alias (aliases_of ls) x /\ b = lookup_alias (aliases_of ls) y.
+Proof. exact parse_lines_relation. Qed.
+Print Assumptions C06_relation.
+
+(* exactly the set of declared or referenced components *)
+Theorem C06_components : forall ls c,
+  In c (fst (parse_lines ls)) <->
+  (exists al, In (PDecl c al) ls) \/
+  (exists x y, In (PArrow x y) ls /\ (c = lookup_alias (aliases_of ls) x \/ c = lookup_alias (aliases_of ls) y)).
+Proof. exact parse_lines_components. Qed.
+Print Assumptions C06_components.
+
+(* every alias resolves to its component name; anything else stands for itself *)
+Theorem C06_alias_resolved : forall al a n, NoDup (map fst al) -> In (a, n) al -> lookup_alias al a = n.
+Proof. exact lookup_alias_hit. Qed.
+Print Assumptions C06_alias_resolved.
+
+Theorem C06_name_unchanged : forall al s, ~ In s (map fst al) -> lookup_alias al s = s.
+Proof. exact lookup_alias_miss. Qed.
+Print Assumptions C06_name_unchanged.
+
+(* regardless of line order *)
+Theorem C06_order_independent : forall ls ls',
+  NoDup (map fst (aliases_of ls)) -> Permutation ls ls' ->
+  (forall c, In c (fst (parse_lines ls)) <-> In c (fst (parse_lines ls'))) /\
+  (forall e, In e (snd (parse_lines ls)) <-> In e (snd (parse_lines ls'))).
+Proof. exact parse_lines_order_independent. Qed.
+Print Assumptions C06_order_independent.
+
+(* the lexical layer on one instance of every documented line form, dotted names included; text outside the tags
+   ignored; a text without the tag pair rejected.  (Strings below are code points: "[src.a] --> [B]" etc.) *)
+Open Scope N_scope.
+Definition s (l : list N) := l.
+Theorem C06_lexical_forms_partial :
+  (* [A] *)                      lex_line [91;65;93] = PDecl [65] None /\
+  (* [src.a] as x *)             lex_line [91;115;114;99;46;97;93;32;97;115;32;120] = PDecl [115;114;99;46;97] (Some [120]) /\
+  (* component A *)              lex_line [99;111;109;112;111;110;101;110;116;32;65] = PDecl [65] None /\
+  (* component [A] *)            lex_line [99;111;109;112;111;110;101;110;116;32;91;65;93] = PDecl [65] None /\
+  (* component [A] as x *)       lex_line [99;111;109;112;111;110;101;110;116;32;91;65;93;32;97;115;32;120] = PDecl [65] (Some [120]) /\
+  (* [A] --> [B] *)              lex_line [91;65;93;32;45;45;62;32;91;66;93] = PArrow [65] [66] /\
+  (* A -> x *)                   lex_line [65;32;45;62;32;120] = PArrow [65] [120] /\
+  (* [A] <-- B *)                lex_line [91;65;93;32;60;45;45;32;66] = PArrow [66] [65] /\
+  (* x <- [B] *)                 lex_line [120;32;60;45;32;91;66;93] = PArrow [66] [120] /\
+  (* [A] -uses-> [B] *)          lex_line [91;65;93;32;45;117;115;101;115;45;62;32;91;66;93] = PArrow [65] [66] /\
+  (* [A] <-uses- [B] *)          lex_line [91;65;93;32;60;45;117;115;101;115;45;32;91;66;93] = PArrow [66] [65] /\
+  (* title Foo *)                lex_line [116;105;116;108;101;32;70;111;111] = PNoise /\
+  (* "x\n@startuml\n[A]\n@enduml\ny" *)
+  parse_text [120;10;64;115;116;97;114;116;117;109;108;10;91;65;93;10;64;101;110;100;117;109;108;10;121] = Some ([[65]], []) /\
+  (* "[A] --> [B]" without tags *)
+  parse_text [91;65;93;32;45;45;62;32;91;66;93] = None.
+Proof. repeat split; vm_compute; reflexivity. Qed.
+Print Assumptions C06_lexical_forms_partial.
+
+(* non-vacuity: D10's shape - '[m2] as c', '[m2] -> [util]', '[core] <- c': both arrows of m2 are kept *)
+Example C06_example :
+  parse_lines [PDecl [1] (Some [9]); PArrow [1] [2]; PArrow [9] [3]] = ([[2]; [1]; [3]], [([1], [2]); ([1], [3])]).
+Proof. vm_compute. reflexivity. Qed.
